@@ -329,3 +329,49 @@ Definition check_join_with (pinned : quirks) (c : join_case) : result :=
    attrib).
 
 Definition explain_join_with (pinned : quirks) (c : join_case) := join_run pinned c.
+
+(** *** group "backlog": a handler stalled inside a lifecycle callback while many further snapshots
+    are applied (the registry's event queue fills up and applyConfig has to wait).  Only the
+    complete log and the state after quiescence are observed. *)
+Definition final_obs_eqb (a b : step_obs) : bool :=
+  list_eqb nspec_eqb (so_reg a) (so_reg b) && list_eqb nspec_eqb (so_w0 a) (so_w0 b)
+  && list_eqb ninst_eqb (so_sup a) (so_sup b).
+
+Fixpoint final_auto (t : N) (cfgs : list (list (N * spec))) (s0 : N -> option ent) (last : snapshot)
+  : (N -> option ent) * snapshot :=
+  match cfgs with
+  | [] => (s0, last)
+  | l :: r => final_auto (t + 1) r (auto_next 0 t (cfg_of l) s0) (cfg_of l)
+  end.
+
+Definition prop_backlog (c : reg_case) (crash : bool) (log : list entry) (obs : list step_obs) : bool :=
+  negb crash
+  && prop_logs 0 (k_names c) (k_steps c) log
+  && match obs with
+     | [o] =>
+         let '(s0, cfg) := final_auto 0 (k_steps c) (fun _ => None) (fun _ => None) in
+         list_eqb nent_eqb (drop_gen (so_sup o)) (rows (k_names c) s0)
+         && list_eqb nspec_eqb (so_reg o) (rows (k_names c) cfg)
+         && list_eqb nspec_eqb (so_w0 o) (rows (k_names c) (fun n => filt 0 (cfg n)))
+     | _ => false
+     end.
+
+Definition check_backlog_with (pinned : quirks) (c : reg_case) : result :=
+  let run := fun q => let '(ml, ms) := model_run q c in
+                      (vis_log 0 ml, match rev ms with [] => [] | x :: _ => [x] end) in
+  let '(ml, ms) := run pinned in
+  let corr :=
+    negb (o_crash c)
+    && Nat.eqb (List.length ml) (List.length (o_log c))
+    && forallb (fun n => list_eqb entry_eqb (log_of n ml) (log_of n (o_log c))) (k_names c)
+    && list_eqb final_obs_eqb ms (o_steps c) in
+  let prop := prop_backlog c (o_crash c) (o_log c) (o_steps c) in
+  let attrib :=
+    if negb prop && corr && q_kind_change_as_update pinned then
+      let '(il, is_) := run ideal in if prop_backlog c false il is_ then 1 else 0
+    else 0 in
+  (corr, prop, match o_log c with [] => 0 | _ => 128 + bN (existsb l_pan (o_log c)) 1
+                                                     + bN (kind_changes [] (k_steps c)) 2 end, attrib).
+
+Definition explain_backlog_with (pinned : quirks) (c : reg_case) :=
+  let '(ml, ms) := model_run pinned c in (vis_log 0 ml, match rev ms with [] => [] | x :: _ => [x] end).
